@@ -4,6 +4,7 @@ Model: DTML/Conc.lean (threads as sequences of atomic steps over the shared vola
 one template object; a schedule is any list of thread ids).
 -/
 import DTML.Conc
+import DTML.GenTmpl
 set_option linter.unusedVariables false
 namespace DTML.Props.C18
 open DTML.Conc
@@ -183,6 +184,57 @@ theorem published_program (E : Engine Src Prog Cell Val Inp Out) (raw : Src) (in
 
 The historical `self.sort = sort_expr.eval(md)` (fixed in /repo: C18-sort-expr-shared-write) is a
 cell whose written value depends on the thread.  With such a cell the statement is false: -/
+
+/-! #### the order of a call's actions on the shared state, translated from DT_String.py on every run
+
+`GenTmpl.callProgramGen` is read off `String.__call__` with `cook` inlined (harness/trans_tmpl.py): the test of
+`_v_cooked`, entering `with COOKLOCK`, each volatile attribute written in the order of the source, leaving the lock, the
+read of `_v_blocks` by the rendering.  The thread program of the interleaving model (`stepThread`) follows exactly this
+list: every enabled step leads to the action that comes next in it - in particular the program is stored *before* the
+flag that publishes it, both inside the lock (what `never_partially_compiled` and `published_program` rest on). -/
+
+section Gen
+open DTML.GenTmpl
+
+/-- the source action a program counter of the model stands for -/
+def actOf : PC Prog Cell Val Out → Option Act
+  | .test => some .test
+  | .acquire => some .acquire
+  | .writeBlocks => some .writeBlocks
+  | .writeFlag => some .writeFlag
+  | .release => some .release
+  | .readBlocks => some .readBlocks
+  | _ => none
+
+/-- the action after `a` in a list of actions -/
+def succIn (l : List Act) (a : Act) : Option Act :=
+  match l.dropWhile (· != a) with
+  | _ :: b :: _ => some b
+  | _ => none
+
+theorem gen_call_program_is_model (E : Engine Src Prog Cell Val Inp Out) (raw : Src) (sh : Shared Prog Cell Val)
+    (tid : Nat) (inp : Inp) :
+    (sh.flag = false → actOf (stepThread E raw sh tid inp .test).2 = succIn callProgramGen .test) ∧
+    (sh.flag = true → actOf (stepThread E raw sh tid inp .test).2 = callProgramGen.getLast?) ∧
+    (sh.lock = none → actOf (stepThread E raw sh tid inp .acquire).2 = succIn callProgramGen .acquire) ∧
+    actOf (stepThread E raw sh tid inp .writeBlocks).2 = succIn callProgramGen .writeBlocks ∧
+    actOf (stepThread E raw sh tid inp .writeFlag).2 = succIn callProgramGen .writeFlag ∧
+    actOf (stepThread E raw sh tid inp .release).2 = succIn callProgramGen .release ∧
+    succIn callProgramGen .readBlocks = none := by
+  refine ⟨fun h => ?_, fun h => ?_, fun h => ?_, rfl, rfl, rfl, rfl⟩
+  · simp only [stepThread, h]; rfl
+  · simp only [stepThread, h]; rfl
+  · simp only [stepThread, h]; rfl
+
+/-- the source writes the program before the flag, and both between taking and releasing the lock -/
+theorem gen_call_program_publishes_last :
+    callProgramGen.idxOf Act.acquire < callProgramGen.idxOf Act.writeBlocks ∧
+    callProgramGen.idxOf Act.writeBlocks < callProgramGen.idxOf Act.writeFlag ∧
+    callProgramGen.idxOf Act.writeFlag < callProgramGen.idxOf Act.release ∧
+    callProgramGen.idxOf Act.release < callProgramGen.idxOf Act.readBlocks := by decide
+
+end Gen
+
 
 /-- two threads, one shared cell written with the thread's own key and read back one step later -/
 def raceStep (keys : List Nat) (cell : Option Nat) (pcs : List (Nat × Option Nat)) (tid : Nat) :
